@@ -199,7 +199,11 @@ static int fam_decrypt(int fam, int alg, const Inputs &in, Bytes &out, bool &buf
     }
     case 2: { lib::DecResult r = lib::masked_decrypt(alg, in.key, in.nonce, in.ad, in.ct); out = r.out; return r.rc; }
     case 3: { lib::DecResult r = lib::dec_generic(lib::SIV_DEC[alg], in.key, in.nonce, in.ad, in.ct); out = r.out; return r.rc; }
-    default: { lib::IsapKey k(alg); k.init(in.key); lib::DecResult r = k.decrypt(in.nonce, in.ad, in.ct); k.free_(); out = r.out; return r.rc; }
+    default: {
+        // the decrypting key object is, for ciphertexts of odd length, one restored with save_key / load_key: the same key
+        lib::IsapKey k(alg); k.init(in.key);
+        if (in.ct.size() & 1) { Bytes saved = k.save(); k.free_(); k.load(saved); }
+        lib::DecResult r = k.decrypt(in.nonce, in.ad, in.ct); k.free_(); out = r.out; return r.rc; }
     }
 }
 
